@@ -41,7 +41,10 @@ def step (s : St) (ws : List String) : St × String :=
   match ws with
   | "persist" :: opts =>
     match persist n (txNames ((parseKV opts "txs").getD "")) (parseCounter ((parseKV opts "counter").getD "")) with
-    | some (n', b) => ({ n := some n' }, s!"ok h={b.height} hash={b.hash} writes=s{Bxh.Ledger.commitWrites n.st b.height}/c1")
+    | some (n', b) =>
+      -- the hypothesis of `C09_history_chain_linked` (`FreshHash`: the new block's hash is not the hash of a stored block), evaluated
+      let fresh := n.tbl.bodies.all (fun c => c.hash != b.hash)
+      ({ n := some n' }, s!"ok h={b.height} hash={b.hash} writes=s{Bxh.Ledger.commitWrites n.st b.height}/c1 ##m fresh=" ++ (if fresh then "1" else "0"))
     | none => (s, "PANIC append-out-of-order")
   | ["getblock", h] => (s, showBlk (getBlock n (h.toNat?.getD 0) false))
   | ["getblock", h, "full"] => (s, showBlk (getBlock n (h.toNat?.getD 0) true))
